@@ -1,7 +1,7 @@
 (* C16 - Pseudo-Boolean expression algebra preserves integer semantics.
    Statements only; every proof is [exact <lemma>]. *)
 From Coq Require Import ZArith List Bool String.
-From FrameModel Require Import PB.Expr PB.ExprFacts PB.Dag PB.DagFacts.
+From FrameModel Require Import PB.Expr PB.ExprFacts PB.ExprCanon PB.Dag PB.DagFacts.
 Open Scope Z_scope.
 
 (* every expression tree (literals of both polarities, terms, integers, nested
@@ -74,3 +74,33 @@ Theorem C16_tree_fragment : forall t a,
   ubuild (emb t) = Some (VExpr (build t)) /\ ueval a (emb t) = teval a t.
 Proof. exact (fun t a => conj (emb_build t) (emb_eval a t)). Qed.
 Print Assumptions C16_tree_fragment.
+
+(* ---- the normal form is canonical (PB/ExprCanon.v) ---- *)
+
+(* every operation keeps the normal form of its left operand, whatever the right operand is *)
+Theorem C16_ops_keep_NF : forall e, NF e ->
+  (forall v s k, NF (add_term e v s k)) /\ (forall k, NF (add_int e k)) /\
+  (forall f, NF (add_expr e f)) /\ (forall f, NF (sub_expr e f)) /\ (forall k, NF (mul e k)).
+Proof. exact (fun e H => conj (fun v s k => add_term_NF e v s k H) (conj (fun k => add_int_NF e k H)
+  (conj (fun f => add_expr_NF e f H) (conj (fun f => sub_expr_NF e f H) (fun k => mul_NF e k H))))). Qed.
+Print Assumptions C16_ops_keep_NF.
+
+(* a normalised expression with the same value under EVERY assignment carries no literal at all:
+   "no zero coefficient, no variable twice" leaves no room for terms that cancel *)
+Theorem C16_constant_canonical : forall e k, NF e -> (forall a, eval a e = k) -> e = mkE k nil.
+Proof. exact constant_canonical. Qed.
+Print Assumptions C16_constant_canonical.
+
+(* two expressions mean the same under every assignment exactly when the code's own subtraction
+   returns the empty expression (constant 0, no term) *)
+Theorem C16_sem_eq_iff_sub_zero : forall e f, NF e ->
+  ((forall a, eval a e = eval a f) <-> sub_expr e f = zero).
+Proof. exact sem_eq_iff_sub_zero. Qed.
+Print Assumptions C16_sem_eq_iff_sub_zero.
+
+(* an inequality between two sides of equal meaning is built with no literal and bound 0,
+   for all six operator spellings *)
+Theorem C16_ineq_of_equal_sides : forall l r op, NF l -> NF r -> (forall a, eval a l = eval a r) ->
+  il (mk_ineq l r op) = nil /\ ir (mk_ineq l r op) = 0.
+Proof. exact ineq_of_equal_sides. Qed.
+Print Assumptions C16_ineq_of_equal_sides.
